@@ -19,6 +19,7 @@ from __future__ import annotations
 
 import math
 import os
+import random
 import time
 import traceback
 
@@ -26,8 +27,9 @@ import numpy as np
 
 import core
 
-RULE = ("rotation grids cube4D_N and randomQ_N for every N of the tier list (quick: 1..12, 17 and two seed-chosen N in 13..40; "
-        "thorough: every N <= 60 and 80, 120, 272), each a fresh factory object; direction grids ico/cube3D/randomS with N = 1..6; "
+RULE = ("rotation grids cube4D_N and randomQ_N for every N of the tier list (quick: 1..12, 17 and two seed-chosen N in 13..40, plus the large "
+        "grids randomQ_120 and one of randomQ_100/150 by seed with the statement oracle only - cells with fewer than dim+1 helper "
+        "points occur only there; thorough: every N <= 60 and 80, 100, 120, 150, 272 with model tie and oracle), each a fresh factory object; direction grids ico/cube3D/randomS with N = 1..6; "
         "MikroVoronoi(d, N) directly incl. the error branches; seed-dependent random double covers G ++ -G pushed through "
         "HalfRotobjVoronoi; synthetic AbstractVoronoi objects (3-D and 4-D, duplicated and np.isclose-near vertices, duplicated / "
         "non-unit centres = exact assignment ties, cells without helper points, all-zero helper point, no helper points); "
@@ -213,8 +215,8 @@ MC_USE = MC_M
 
 
 def mc_measures(G):
-    X = mc_sample()[:MC_USE]
     N = len(G)
+    X = mc_sample()[:(MC_M if N >= 60 else MC_USE)]     # small cells of large grids need the whole sample (sigma ~ 1 %)
     cnt = np.zeros(N)
     step = 500_000
     for s in range(0, len(X), step):
@@ -287,6 +289,19 @@ def ev_grid(rec, case):
             rec.fail.append((f"C15:equal_share:{label}", f"fewer than four points: expected {N} times pi^2/{N}", case,
                              PI ** 2 / N, [float(v) for v in vols]))
         rec.nt.append(("grid", alg, N))
+        return
+    # the regime small grids never reach: cells that catch fewer than dim+1 of the 5000 helper points
+    from scipy.spatial.distance import cdist
+    cnt = np.bincount(np.argmin(cdist(helper_quaternions(), grid, metric="cos"), axis=1), minlength=2 * N)
+    starved = int((cnt < grid.shape[1] + 1).sum())
+    rec.b("cells_with_fewer_than_dim+1_helper_points", starved)
+    rec.b("cells_with_fewer_than_dim+1_helper_points_reported_half", int((cnt[:N] < grid.shape[1] + 1).sum()))
+    if starved:
+        rec.b("grids_with_starved_cells")
+    if case.get("oracle_only"):          # large grid of the quick tier: statement oracle only (the model tie at this N is in thorough)
+        rec.b("large_grid_oracle_only")
+        rec.nt.append(("grid", alg, N))
+        oracle_rotation(rec, case, label, N, grid, vols, banded=True)
         return
     info = model_rotation(rec, case, grid, N, vols, "cell volumes")
     if "err" in info:
@@ -616,7 +631,12 @@ def tier_Ns(ctx):
     if ctx.quick:
         extra = sorted(ctx.rng.sample(range(13, 41), 2))
         return list(range(1, 13)) + [17] + [n for n in extra if n != 17]
-    return list(range(1, 61)) + [80, 120, 272]
+    return list(range(1, 61)) + [80, 100, 120, 150, 272]
+
+
+def quick_large(ctx):
+    """large randomQ grids of the quick tier (cells starved of helper points): randomQ_120 always, one of 100/150 by seed"""
+    return [120, random.Random(f"C15-large-{ctx.seed}").choice([100, 150])]
 
 
 def jobs_for(ctx):
@@ -632,6 +652,9 @@ def jobs_for(ctx):
         for alg in ("randomQ", "cube4D"):
             if (alg, N) not in seen:
                 jobs.append(("grid", {"kind": "grid", "alg": alg, "N": N}))
+    if ctx.quick:
+        for N in quick_large(ctx):
+            jobs.append(("grid", {"kind": "grid", "alg": "randomQ", "N": N, "oracle_only": True}))
     nrand = 6 if ctx.quick else 60
     for _ in range(nrand):
         N = ctx.rng.choice([4, 5, 6, 7, 9, 12] if ctx.quick else [4, 5, 6, 7, 8, 9, 11, 14, 20, 30])
@@ -688,7 +711,7 @@ def run_job(job):
 def weight(job):
     kind, p = job
     if kind == "grid":
-        return p["N"] ** 2 * (3 if p["alg"] == "cube4D" else 1)
+        return p["N"] ** 2 * (3 if p["alg"] == "cube4D" else 1) * (0.5 if p.get("oracle_only") else 1)
     if kind == "randgrid":
         return p["N"] ** 2
     return 50
@@ -743,11 +766,11 @@ def run(ctx):
     ctx.note("np.isclose / np.allclose / cdist are evaluated exactly in the model; a helper point whose two best cosine distances differ "
              "by less than float rounding could be assigned differently (not observed; any such case would show up as a disagreement)")
     ctx.note(f"tolerance bands (12 % sum, 30 % per cell) are NOT theorems: evaluated only by the Monte-Carlo oracle, fixed sample of "
-             f"{MC_M} points, quick uses its first 10^6 (seed {MC_SEED}, independent of VERIF_SEED), reported only beyond band + 3 sigma")
+             f"{MC_M} points, quick uses its first 10^6 for grids with N < 60 and the whole sample for larger ones (seed {MC_SEED}, independent of VERIF_SEED), reported only beyond band + 3 sigma")
     global MC_USE
     MC_USE = 1_000_000 if ctx.quick else MC_M
     jobs = jobs_for(ctx)
-    ctx.extra_cov["rotation_grid_Ns"] = tier_Ns(ctx) if ctx.quick else "1..60, 80, 120, 272"
+    ctx.extra_cov["rotation_grid_Ns"] = (tier_Ns(ctx) + [f"randomQ_{n} (oracle only)" for n in quick_large(ctx)]) if ctx.quick else "1..60, 80, 100, 120, 150, 272"
     ctx.extra_cov["monte_carlo"] = {"points_used": MC_USE, "sample": MC_M, "seed": MC_SEED}
     execute(ctx, jobs, parallel=True)
 
